@@ -16,6 +16,7 @@ type TPart struct {
 	Line    bool   // {{__line__}}
 	TSNanos bool   // {{__timestamp__ | unixEpochNanos}}
 	Fail    bool   // a call that always fails at execution time
+	Div     string // {{ div 7 (int .label) }}: fails (division by zero) when the label is missing, empty or 0
 }
 
 // Template is a template restricted to the alphabet.
@@ -36,6 +37,8 @@ func (t Template) Source() string {
 			sb.WriteString("{{__timestamp__ | unixEpochNanos}}")
 		case p.Fail:
 			sb.WriteString(`{{ regexReplaceAll "(" "x" "y" }}`)
+		case p.Div != "":
+			sb.WriteString("{{ div 7 (int ." + p.Div + ") }}")
 		default:
 			sb.WriteString(p.Lit)
 		}
@@ -58,6 +61,12 @@ func (t Template) Expand(e *Entry) (string, bool) {
 			sb.WriteString(strconv.FormatInt(e.TS, 10))
 		case p.Fail:
 			return "", false
+		case p.Div != "":
+			n, err := strconv.Atoi(e.Labels[p.Div])
+			if err != nil || n == 0 {
+				return "", false
+			}
+			sb.WriteString(strconv.Itoa(7 / n))
 		default:
 			sb.WriteString(p.Lit)
 		}
